@@ -8,7 +8,7 @@ CONSTANTS NS = 2
   Shapes <- ShAL
   Gaps <- G1
   Sweeps <- BT
-  Caches <- BB
+  Caches <- BT
   DropInPort = TRUE
   IdleTO = 10
   HardTO = 30
